@@ -8,293 +8,6 @@ import (
 	"osmcheck/core"
 )
 
-// ---------------------------------------------------------------- collectors (pending list / filter result)
-
-// collector: eff (the effects of the loop body under the given orders) is a single statement `P = append(P, elem)`
-// with P a plain variable, and every path of the body executes it under each of the orders.
-func (w *c15World) collector(site c15LoopSite, eff []ast.Node, ords []c15Ord) (types.Object, ast.Node, string) {
-	P := w.r.P
-	if len(eff) == 0 {
-		return nil, nil, "nothing is done with the update"
-	}
-	if len(eff) != 1 {
-		return nil, nil, "more than one effect (`" + src(P.Fset, eff[0]) + "`, `" + src(P.Fset, eff[1]) + "`)"
-	}
-	as, ok := eff[0].(*ast.AssignStmt)
-	if !ok || len(as.Lhs) != 1 || len(as.Rhs) != 1 || as.Tok != token.ASSIGN {
-		return nil, nil, "`" + src(P.Fset, eff[0]) + "` is not `X = append(X, u)`"
-	}
-	call, ok := ast.Unparen(as.Rhs[0]).(*ast.CallExpr)
-	if !ok || builtinName(w.info, call) != "append" || len(call.Args) != 2 || call.Ellipsis.IsValid() {
-		return nil, nil, "`" + src(P.Fset, as) + "` is not `X = append(X, u)`"
-	}
-	lp := w.pathOf(site.env, as.Lhs[0], true)
-	ap := w.pathOf(site.env, call.Args[0], true)
-	if lp == nil || len(lp.steps) != 0 || !lp.eq(ap) {
-		return nil, nil, "`" + src(P.Fset, as) + "` does not append to the list it assigns"
-	}
-	if !w.isElem(site.env, site.loop, w.pathOf(site.env, call.Args[1], false)) {
-		return nil, nil, "`" + src(P.Fset, as) + "` does not append the loop's own element"
-	}
-	if lp.root.Parent() == nil || !c15Within(site.loop.fn.fi.Decl, c15PosNode(lp.root.Pos())) {
-		return nil, nil, "`" + src(P.Fset, as) + "` appends to a variable that is not local to " + site.loop.fn.name()
-	}
-	for _, ord := range ords {
-		o := &c15Oracle{w: w, loop: site.loop, lenv: site.env, ord: ord}
-		wk := w.walk(site.loop.entry, 0, c15WalkOpt{env: site.env, loop: site.loop, oracle: o, barrier: func(n ast.Node) bool { return n == ast.Node(as) }})
-		if wk.head {
-			return nil, nil, "an update stamped " + ord.String() + " can reach the end of the loop body without `" + src(P.Fset, as) + "`"
-		}
-	}
-	return lp.root, as, ""
-}
-
-type c15PosNode token.Pos
-
-func (p c15PosNode) Pos() token.Pos { return token.Pos(p) }
-func (p c15PosNode) End() token.Pos { return token.Pos(p) }
-
-// otherAssigns: besides node, P is only ever given an empty value (declaration without value, nil, make(T, 0, …),
-// an empty composite literal) and its address is never taken. Returns "" or the offending source.
-func (w *c15World) otherAssigns(f *c15Fn, P types.Object, node ast.Node) string {
-	bad := ""
-	empty := func(e ast.Expr) bool {
-		e = ast.Unparen(e)
-		if isNilIdent(e) {
-			return true
-		}
-		switch x := e.(type) {
-		case *ast.CompositeLit:
-			return len(x.Elts) == 0
-		case *ast.CallExpr:
-			if tv, ok := w.info.Types[x.Fun]; ok && tv.IsType() && len(x.Args) == 1 {
-				return isNilIdent(ast.Unparen(x.Args[0]))
-			}
-			if builtinName(w.info, x) == "make" && len(x.Args) >= 2 {
-				k, ok := constInt(w.info, x.Args[1])
-				return ok && k == 0
-			}
-		}
-		return false
-	}
-	ast.Inspect(f.fi.Decl.Body, func(n ast.Node) bool {
-		if bad != "" {
-			return false
-		}
-		switch x := n.(type) {
-		case *ast.AssignStmt:
-			if ast.Node(x) == node {
-				return true
-			}
-			for i, l := range x.Lhs {
-				if objOf(w.info, l) != P {
-					continue
-				}
-				if len(x.Lhs) != len(x.Rhs) || !empty(x.Rhs[i]) {
-					bad = src(w.r.P.Fset, x)
-				}
-			}
-		case *ast.ValueSpec:
-			for i, nm := range x.Names {
-				if w.info.Defs[nm] != P {
-					continue
-				}
-				if len(x.Values) == 0 {
-					continue
-				}
-				if len(x.Values) != len(x.Names) || !empty(x.Values[i]) {
-					bad = src(w.r.P.Fset, x)
-				}
-			}
-		case *ast.UnaryExpr:
-			if x.Op == token.AND && objOf(w.info, x.X) == P {
-				bad = src(w.r.P.Fset, x)
-			}
-		case *ast.IncDecStmt:
-			if objOf(w.info, x.X) == P {
-				bad = src(w.r.P.Fset, x)
-			}
-		case *ast.RangeStmt:
-			if (x.Key != nil && objOf(w.info, x.Key) == P) || (x.Value != nil && objOf(w.info, x.Value) == P) {
-				bad = src(w.r.P.Fset, x)
-			}
-		}
-		return true
-	})
-	return bad
-}
-
-// storedBack: after the loop (position `after` dominates) the list held by local Q of env.fn is written to the
-// place the scanned updates were read from (path target, rooted in the API function), and every success return of
-// env.fn comes after that store. If env.fn is a helper, Q may instead be returned to the caller, which must store it.
-func (w *c15World) storedBack(env *c15Env, Q types.Object, target *c15Path, after func(pos token.Pos) bool, errGuard types.Object, from token.Pos, depth int) (string, string) {
-	f := env.fn
-	P := w.r.P
-	var store *ast.AssignStmt
-	inspectNoLit(f.fi.Decl.Body, func(n ast.Node) bool {
-		as, ok := n.(*ast.AssignStmt)
-		if !ok || as.Tok != token.ASSIGN || len(as.Lhs) != len(as.Rhs) {
-			return true
-		}
-		for i, l := range as.Lhs {
-			lp := w.pathOf(env, l, true)
-			rp := w.pathOf(env, as.Rhs[i], true)
-			if lp != nil && lp.eq(target) && rp != nil && rp.root == Q && len(rp.steps) == 0 && after(as.Pos()) {
-				store = as
-			}
-		}
-		return true
-	})
-	if store != nil && errGuard != nil {
-		// the list came with an error (`q, err := helper(…)`): evaluated for err == nil every path from the call to
-		// a return passes the store; evaluated for err != nil no path executes it
-		_, b, i := f.nodeAt(from)
-		if b == nil {
-			return "", "the call that returns the list is not in the control-flow graph"
-		}
-		isStore := func(n ast.Node) bool { return n == ast.Node(store) }
-		wk := w.walk(b, i+1, c15WalkOpt{env: env, oracle: &c15Oracle{w: w, errObj: errGuard, errVal: -1}, barrier: isStore})
-		for _, ret := range wk.returns {
-			if w.retKind(f, ret) != c15RetFailure || usesObj(w.info, ret, errGuard) {
-				return "", "with a nil " + errGuard.Name() + " the return at " + P.Rel(ret.Pos()) + " is reached without `" + src(P.Fset, store) + "`"
-			}
-		}
-		if wk.implicit {
-			return "", "with a nil " + errGuard.Name() + " the end of " + f.name() + " is reached without `" + src(P.Fset, store) + "`"
-		}
-		wk = w.walk(b, i+1, c15WalkOpt{env: env, oracle: &c15Oracle{w: w, errObj: errGuard, errVal: +1}})
-		if wk.visited[store] {
-			return "", "`" + src(P.Fset, store) + "` (" + P.Rel(store.Pos()) + ") is executed also when " + errGuard.Name() + " is non-nil: the list that comes with an error replaces the pending updates"
-		}
-		return "`" + src(P.Fset, store) + "` (" + P.Rel(store.Pos()) + ") is on every path with a nil " + errGuard.Name() + " and on none with a non-nil one", ""
-	}
-	if store != nil {
-		// every success return of f is dominated by the store
-		miss := ""
-		inspectNoLit(f.fi.Decl.Body, func(n ast.Node) bool {
-			ret, ok := n.(*ast.ReturnStmt)
-			if !ok || w.retKind(f, ret) == c15RetFailure {
-				return true
-			}
-			if !posDominates(f.g, f.dom, store.Pos(), ret.Pos()) && !w.vacuousAt(env, ret.Pos(), []*c15Path{target}) {
-				miss = P.Rel(ret.Pos())
-			}
-			return true
-		})
-		if miss != "" {
-			return "", "the success return at " + miss + " is not preceded by `" + src(P.Fset, store) + "`"
-		}
-		// the store must not happen on a path that reports an error: a failed call leaves the pending list as it was
-		if _, b, i := f.nodeAt(store.Pos()); b != nil {
-			wk := w.walk(b, i+1, c15WalkOpt{env: env})
-			for _, ret := range wk.returns {
-				if w.retKind(f, ret) == c15RetFailure {
-					return "", "`" + src(P.Fset, store) + "` (" + P.Rel(store.Pos()) + ") can be followed by the error return `" + src(P.Fset, ret) + "` (" + P.Rel(ret.Pos()) + "): the pending updates are replaced although the call fails"
-				}
-			}
-		}
-		return "`" + src(P.Fset, store) + "` (" + P.Rel(store.Pos()) + ") precedes every success return of " + f.name() + " and no error return follows it", ""
-	}
-	// returned to the caller?
-	if env.parent == nil || depth > 2 {
-		return "", "the list is never stored back into " + target.String() + " after the loop"
-	}
-	k := -1
-	bad := ""
-	inspectNoLit(f.fi.Decl.Body, func(n ast.Node) bool {
-		ret, ok := n.(*ast.ReturnStmt)
-		if !ok || w.retKind(f, ret) == c15RetFailure {
-			return true
-		}
-		if len(ret.Results) == 0 {
-			// named results
-			sig := f.fi.Obj.Type().(*types.Signature)
-			for i := 0; i < sig.Results().Len(); i++ {
-				if sig.Results().At(i) == Q {
-					if k >= 0 && k != i {
-						bad = "inconsistent result position"
-					}
-					k = i
-					return true
-				}
-			}
-			bad = "`" + src(P.Fset, ret) + "` does not return the list"
-			return true
-		}
-		found := false
-		for i, e := range ret.Results {
-			if p := w.pathOf(env, e, true); p != nil && p.root == Q && len(p.steps) == 0 {
-				if k >= 0 && k != i {
-					bad = "inconsistent result position"
-				}
-				k, found = i, true
-			}
-		}
-		if !found {
-			bad = "`" + src(P.Fset, ret) + "` (" + P.Rel(ret.Pos()) + ") does not return the list"
-		} else if !after(ret.Pos()) {
-			bad = "`" + src(P.Fset, ret) + "` (" + P.Rel(ret.Pos()) + ") returns before the loop has completed"
-		}
-		return true
-	})
-	if bad != "" || k < 0 {
-		if bad == "" {
-			bad = "the list is neither stored nor returned"
-		}
-		return "", bad
-	}
-	// the call in the parent: `…, q, … := call` or `…, recv.Updates, … = call`
-	pf := env.parent.fn
-	as, ok := pf.par[env.call].(*ast.AssignStmt)
-	if !ok || len(as.Rhs) != 1 || ast.Unparen(as.Rhs[0]) != ast.Expr(env.call) || k >= len(as.Lhs) {
-		return "", "the result of " + f.name() + " that carries the list is not assigned by the caller " + pf.name()
-	}
-	// the error that comes with the list
-	var callErr types.Object
-	if last := as.Lhs[len(as.Lhs)-1]; len(as.Lhs) > 1 {
-		if o := objOf(w.info, last); o != nil && types.Identical(o.Type(), types.Universe.Lookup("error").Type()) {
-			callErr = o
-		}
-	}
-	lp := w.pathOf(env.parent, as.Lhs[k], true)
-	if lp != nil && lp.eq(target) {
-		if callErr != nil || c15ReturnsError(f) {
-			return "", "`" + src(P.Fset, as) + "` (" + P.Rel(as.Pos()) + ") stores the list before the error of " + f.name() + " is tested: the list that comes with a non-nil error replaces the pending updates"
-		}
-		miss := ""
-		inspectNoLit(pf.fi.Decl.Body, func(n ast.Node) bool {
-			ret, ok := n.(*ast.ReturnStmt)
-			if !ok || w.retKind(pf, ret) == c15RetFailure {
-				return true
-			}
-			if !posDominates(pf.g, pf.dom, as.Pos(), ret.Pos()) && !w.vacuousAt(env.parent, ret.Pos(), []*c15Path{target}) {
-				miss = P.Rel(ret.Pos())
-			}
-			return true
-		})
-		if miss != "" {
-			return "", "the success return at " + miss + " is not preceded by `" + src(P.Fset, as) + "`"
-		}
-		return "returned by " + f.name() + " and assigned by `" + src(P.Fset, as) + "` (" + P.Rel(as.Pos()) + ")", ""
-	}
-	q := objOf(w.info, as.Lhs[k])
-	if q == nil {
-		return "", "the result of " + f.name() + " that carries the list is dropped by `" + src(P.Fset, as) + "`"
-	}
-	if n := len(pf.defs[q]); n != 1 {
-		return "", "the caller's variable " + q.Name() + " holding the list is assigned more than once"
-	}
-	callPos := as.Pos()
-	if callErr == nil && c15ReturnsError(f) {
-		return "", "the error of " + f.name() + " is dropped by `" + src(P.Fset, as) + "`"
-	}
-	proof, why := w.storedBack(env.parent, q, target, func(pos token.Pos) bool { return pos > callPos && posDominates(pf.g, pf.dom, callPos, pos) }, callErr, callPos, depth+1)
-	if why != "" {
-		return "", why
-	}
-	return "returned by " + f.name() + "; " + proof, ""
-}
-
 // ---------------------------------------------------------------- applying an in-time update
 
 // c15Apply describes how the in-time edge of a loop applies the element.
@@ -356,28 +69,40 @@ func (w *c15World) errPropagated(site c15LoopSite, ap c15Apply) (string, string)
 		return "", "call not located in the control-flow graph"
 	}
 	o := &c15Oracle{w: w, loop: site.loop, lenv: site.env, errObj: errObj, errVal: +1}
-	reassigned := false
-	wk := w.walk(b, i+1, c15WalkOpt{env: site.env, loop: site.loop, oracle: o})
-	for _, n := range wk.nodes {
-		if x, ok := n.(*ast.AssignStmt); ok {
-			for _, l := range x.Lhs {
-				if objOf(w.info, l) == errObj {
-					reassigned = true
-				}
+	wk := w.walk(b, i+1, c15WalkOpt{env: site.env, loop: site.loop, oracle: o, follow: true})
+	nodes := wk.nodes
+	returns := wk.returns
+	implicit := wk.implicit
+	if wk.done && wk.after != nil {
+		// the loop is left with the error pending ("err = X; leave; … return err"): follow it to the returns
+		nodes = append(append([]ast.Node{}, nodes...), wk.after.nodes...)
+		returns = append(append([]*ast.ReturnStmt{}, returns...), wk.after.returns...)
+		implicit = implicit || wk.after.implicit
+	}
+	target := w.pathOf(site.env, site.loop.x, true)
+	for _, n := range nodes {
+		x, ok := n.(*ast.AssignStmt)
+		if !ok {
+			continue
+		}
+		for _, l := range x.Lhs {
+			if objOf(w.info, l) == errObj {
+				return "", "the error variable is overwritten by `" + src(P.Fset, x) + "` before it is returned"
+			}
+			if lp := w.pathOf(site.env, l, true); target != nil && len(target.steps) > 0 && lp.eq(target) {
+				return "", "with a non-nil error from `" + src(P.Fset, ap.call) + "` the path still executes `" + src(P.Fset, x) + "` (" + P.Rel(x.Pos()) + "): the pending updates are replaced although the call fails"
 			}
 		}
 	}
 	switch {
-	case reassigned:
-		return "", "the error variable is overwritten before it is returned"
 	case wk.head:
 		return "", "with a non-nil error from `" + src(P.Fset, ap.call) + "` a path goes on with the next update"
-	case wk.done || wk.escape != nil:
+	case wk.escape != nil || (wk.done && wk.after == nil):
 		return "", "with a non-nil error from `" + src(P.Fset, ap.call) + "` a path leaves the loop without returning the error"
-	case wk.implicit || len(wk.returns) == 0:
+	case implicit || len(returns) == 0:
 		return "", "with a non-nil error from `" + src(P.Fset, ap.call) + "` no return is reached"
 	}
-	for _, ret := range wk.returns {
+	for _, ret := range returns {
 		if len(ret.Results) == 0 && f.isParam(errObj) && !f.isInput(errObj) {
 			continue // bare return of the named error result
 		}
@@ -385,7 +110,11 @@ func (w *c15World) errPropagated(site c15LoopSite, ap c15Apply) (string, string)
 			return "", "`" + src(P.Fset, ret) + "` (" + P.Rel(ret.Pos()) + ") is reached with a non-nil error from `" + src(P.Fset, ap.call) + "` but does not return it"
 		}
 	}
-	return "a non-nil " + errObj.Name() + " always reaches `" + src(P.Fset, wk.returns[0]) + "`", ""
+	how := ""
+	if wk.done {
+		how = " (after leaving the loop)"
+	}
+	return "a non-nil " + errObj.Name() + " always reaches `" + src(P.Fset, returns[0]) + "`" + how, ""
 }
 
 // ---------------------------------------------------------------- roles of the loops reached from an applying API
@@ -498,7 +227,7 @@ func c15U2(r *core.R) {
 					b, _ := blockOf(f.g, pos)
 					return b != nil && (b == l.done || f.dom[b][l.done])
 				}
-				proof, why := w.storedBack(site.env, Q, target, after, nil, token.NoPos, 0)
+				proof, why := w.storedBack(site.env, Q, target, after, nil, l.done, 0, 0)
 				if why != "" {
 					r.Bad(cp, node.Pos(), "updates after t are collected by `%s` but %s", src(r.P.Fset, node), why)
 				} else {
